@@ -294,3 +294,17 @@ def vbytes(bs):
 
 def vopt(x):
     return 'None' if x is None else '(Some %s)' % x
+
+
+def coqchk(pid, timeout=1800):
+    """Independent re-check of Props/<pid>.vo and everything it depends on (thorough tier)."""
+    cmd = ['timeout', str(timeout), 'coqchk', '-silent', '-o', '-Q', COQDIR, LOGICAL, '%s.Props.%s' % (LOGICAL, pid)]
+    p = subprocess.run(cmd, stdout=subprocess.PIPE, stderr=subprocess.STDOUT, text=True, cwd=COQDIR)
+    out = p.stdout
+    axioms = None
+    m = re.search(r'\* Axioms:(.*?)\n\s*\n\* Constants', out, re.S)
+    if m:
+        axioms = [x.strip() for x in m.group(1).strip().split('\n') if x.strip()]
+    ok = p.returncode == 0 and axioms is not None and (axioms == ['<none>'] or all(
+        a.split()[0] in STDLIB_AXIOM_WHITELIST or a.startswith('Coq.') for a in axioms))
+    return {'ok': ok, 'rc': p.returncode, 'axioms': axioms, 'cmd': ' '.join(cmd), 'tail': out[-1500:]}
